@@ -645,11 +645,18 @@ def Subj.info (sc : Scope) (props : List Attr) : Subj → AttrInfo
   | .nodeID l => { base := sc.base, lang := sc.lang, nodeID := some l, props := props }
   | .anon _ => { base := sc.base, lang := sc.lang, props := props }
 
+/-- element name of a node element: the type, or `rdf:Description` -/
+def typNs : Option (Str × Str) → Str
+  | some (ns, _) => ns
+  | none => rdfNS
+def typName : Option (Str × Str) → Str
+  | some (_, name) => name
+  | none => n_Description
+
 mutual
 def renderNode : PNode → Node
   | .mk sc subj typ pattrs props =>
-    .elem (match typ with | some (ns, _) => ns | none => rdfNS)
-      (match typ with | some (_, name) => name | none => n_Description)
+    .elem (typNs typ) (typName typ)
       (stdAttrs (subj.info sc (pattrs.map PAttr.render))) (renderProps props)
 def renderProps : List PProp → List Node
   | [] => []
